@@ -282,11 +282,14 @@ pub fn gen_program_ext(rng: &mut Rng) -> (String, Option<String>, bool) {
                         out.push_str(&format!(".loop {} {{\n    inx\n}}\n", rng.range(2, 3)));
                     }
                     5 if rng.chance(1, 2) => {
-                        out.push_str(if rng.chance(1, 2) {
-                            "    .assert 1 == 1\n"
-                        } else {
-                            "    .trace (cpu.a)\n"
-                        });
+                        // (assertions that hold; the ones about memory are evaluated by the machine through the
+                        // `ram` function, which the debugger registers)
+                        out.push_str(*rng.pick(&[
+                            "    .assert 1 == 1\n",
+                            "    .trace (cpu.a)\n",
+                            "    .assert ram($20) == ram($20)\n",
+                            "    .assert ram16($20) >= 0\n",
+                        ]));
                     }
                     _ => {
                         out.push_str(&format!("    {}\n", rng.pick(STRAIGHT)));
